@@ -56,7 +56,7 @@ theorem spec_hexValue_hexLower (n : Nat) : Spec.hexValue (hexLower n) = some n :
   unfold hexLower
   rw [this]
 
-theorem writeLoop_chunked_spec (blk : Nat) (hb : 0 < blk) (hb2 : blk < 4294967296) : ∀ (wf : Nat) (b w p : Bytes), b.length ≤ wf → Spec.ChunkedBody w p →
+theorem writeLoop_chunked_spec (blk : Nat) (hb : 0 < blk) (hb2 : blk < 2147483648) : ∀ (wf : Nat) (b w p : Bytes), b.length ≤ wf → Spec.ChunkedBody w p →
     Spec.ChunkedBody (writeLoop true blk wf b ++ w) (b ++ p) := by
   intro wf
   induction wf with
@@ -89,8 +89,8 @@ theorem writeLoop_chunked_spec (blk : Nat) (hb : 0 < blk) (hb2 : blk < 429496729
 
 /-- one chunk with an arbitrary size line `sz` that `hexToInt` reads as the data length -/
 theorem readChunked_step_gen (rblk : Nat) (hr : 0 < rblk) (f : Nat) (i : Inp) (acc : List Bytes) (sz p tail : Bytes)
-    (hi : Live i) (hp0 : 0 < p.length) (hnolf : ∀ c ∈ sz ++ [13], c ≠ 10) (hlen : (sz ++ [13]).length ≤ 16001)
-    (hval : hexToInt (sz ++ [13]) = p.length)
+    (hi : Live i) (hp0 : 0 < p.length) (hp31 : p.length < 2147483648) (hnolf : ∀ c ∈ sz ++ [13], c ≠ 10)
+    (hlen : (sz ++ [13]).length ≤ 16001) (hval : hexToInt (sz ++ [13]) = p.length)
     (hd : i.data = sz ++ crlf ++ p ++ crlf ++ tail) :
     ∃ bl : List Bytes, bl.reverse.flatten = p ∧
       readChunkedLoop rblk (f + 1) i 0 acc =
@@ -107,7 +107,9 @@ theorem readChunked_step_gen (rblk : Nat) (hr : 0 < rblk) (f : Nat) (i : Inp) (a
     simp only [live_dead hi, Bool.false_eq_true, if_false]
     rw [hrl]
     simp only []
-    rw [hval, heq]
+    rw [hval]
+    simp only [hp31, if_true]
+    rw [heq]
     simp only []
     rw [advance_advance]
     have hdat : ((i.advance ((sz ++ [13]).length + 1 + p.length)).data) = crlf ++ tail := by
@@ -253,7 +255,7 @@ theorem hexToInt_spec (sz : Bytes) (n : Nat) (hv : Spec.hexValue sz = some n) (h
 /-- **reader conformance.**  The chunked loop of `readBody` decodes every RFC 7230 chunked body (size lines in either
 case, with leading zeros, payload below 2^32 bytes) into its payload -/
 theorem readChunked_rfc (rblk : Nat) (hr : 0 < rblk) : ∀ (w b : Bytes), Spec.ChunkedBody w b →
-    (∀ (f : Nat) (i : Inp) (acc : List Bytes) (rest : Bytes), Live i → w.length < f → b.length < 4294967296 →
+    (∀ (f : Nat) (i : Inp) (acc : List Bytes) (rest : Bytes), Live i → w.length < f → b.length < 2147483648 →
       i.data = w ++ rest →
       ∃ bl : List Bytes, bl.reverse.flatten = b ∧
         readChunkedLoop rblk f i 0 acc = (bl ++ acc, i.advance w.length) ∧ (i.advance w.length).data = rest) := by
@@ -271,7 +273,7 @@ theorem readChunked_rfc (rblk : Nat) (hr : 0 < rblk) : ∀ (w b : Bytes), Spec.C
     have hwl : (sz ++ [13, 10] ++ d ++ [13, 10] ++ w').length = sz.length + 2 + d.length + 2 + w'.length := by
       simp; omega
     obtain ⟨hval, hnolf⟩ := hexToInt_spec sz d.length hv (by simp only [List.length_append] at hb; omega)
-    obtain ⟨bl1, hbl1, heq1⟩ := readChunked_step_gen rblk hr f0 i acc sz d (w' ++ rest) hi hdl hnolf
+    obtain ⟨bl1, hbl1, heq1⟩ := readChunked_step_gen rblk hr f0 i acc sz d (w' ++ rest) hi hdl (by simp only [List.length_append] at hb; omega) hnolf
       (by simp only [List.length_append, List.length_cons, List.length_nil]; omega) hval
       (by rw [hd]; simp [crlf, List.append_assoc])
     have hi' : Live (i.advance (sz.length + 2 + d.length + 2)) := hi
